@@ -170,6 +170,8 @@ where
 
     // First we check if we have a cached result for the given input
     #[cfg(taffy_verif)]
+    crate::verif_hooks::bump_query();
+    #[cfg(taffy_verif)]
     crate::verif_hooks::set_current_input(Some(inputs));
     let cache_entry = tree.cache_get(node, known_dimensions, available_space, run_mode);
     #[cfg(taffy_verif)]
